@@ -490,7 +490,7 @@ func frozenGlobal(g *ssa.Global) bool {
 	}
 	res := curWorld != nil
 	if curWorld != nil {
-		for f := range allModuleFuncs(curWorld, curWorld.SSA()) {
+		for _, f := range sortedModuleFuncs(curWorld, curWorld.SSA()) {
 			isInit := f.Name() == "init" || strings.HasPrefix(f.Name(), "init#")
 			allInstrs(f, func(in ssa.Instruction) {
 				switch x := in.(type) {
